@@ -85,6 +85,7 @@ impl Database {
                 };
 
                 let mut errors = Vec::new();
+                let mut read_errors = HashMap::new();
 
                 for reader_set in segments.values_mut().rev() {
                     offsets.retain(|offset| {
@@ -96,8 +97,11 @@ impl Database {
                             Ok(false) => true,
                             Ok(true) => false,
                             Err(err) => {
-                                errors.push(err);
-                                false
+                                // The offset belongs to one segment only: in every other
+                                // segment it usually points into the middle of a record and
+                                // cannot be read. Keep looking in the older segments.
+                                read_errors.insert(*offset, err);
+                                true
                             }
                         }
                     });
@@ -107,10 +111,12 @@ impl Database {
                 }
 
                 for offset in offsets {
-                    errors.push(ReadError::TransactionIdNotFoundAtOffset {
-                        transaction_id,
-                        offset,
-                    });
+                    errors.push(read_errors.remove(&offset).unwrap_or(
+                        ReadError::TransactionIdNotFoundAtOffset {
+                            transaction_id,
+                            offset,
+                        },
+                    ));
                 }
 
                 if !errors.is_empty() {
